@@ -388,3 +388,50 @@ func verifC11ProxyHeaders(req *http.Request) {
 		req.Header.Set("Upgrade-Insecure-Requests", "1")
 	}
 }
+
+// Permission decisions are per (topic, channel) pair: what was allowed for one pair says nothing
+// about another pair, however similar their spelling - in particular SUB "ab" "c" and PUB "abc"
+// (same concatenation) are decided independently, in either order, on one connection.
+func VerifC11_DecisionsArePerTopicAndChannel() { verifrt.Atomic(verifC11PerPair) }
+
+func verifC11PerPair() {
+	o := verifOpts()
+	o.MemQueueSize = 2
+	// the answer grants: subscribe on topic ab / channel c only; publish on topic pub only
+	st := auth.State{TTL: 60, Authorizations: []auth.Authorization{
+		{Topic: "^ab$", Channels: []string{"^c$"}, Permissions: []string{"subscribe"}},
+		{Topic: "^pub$", Channels: []string{".*"}, Permissions: []string{"publish"}},
+	}}
+	queries := verifAuthd(o, []verifAuthReply{{state: st}})
+	_ = queries
+	n := verifShellNSQD(o)
+	verifrt.StubNative("(*github.com/nsqio/nsq/nsqd.NSQD).Notify", verifNotifyNop)
+	cl, _ := verifClient(n, 1, nil)
+	s := st
+	s.Expires = time.Unix(1<<32, 0)
+	cl.AuthState = &s
+	p := &protocolV2{nsqd: n}
+	subFirst := verifrt.Choice("order", 2) == 0
+	pub := func(topic string) error {
+		cl.Reader.Reset(&verifStream{data: append(verifBE32(1), 'x'), err: errEOFVerif})
+		_, err := p.Exec(cl, [][]byte{[]byte("PUB"), []byte(topic)})
+		return err
+	}
+	var errSub, errPubAbc, errPubOK error
+	if subFirst {
+		_, errSub = p.Exec(cl, [][]byte{[]byte("SUB"), []byte("ab"), []byte("c")})
+		errPubAbc = pub("abc")
+		errPubOK = pub("pub")
+	} else {
+		errPubOK = pub("pub")
+		errPubAbc = pub("abc")
+		_, errSub = p.Exec(cl, [][]byte{[]byte("SUB"), []byte("ab"), []byte("c")})
+	}
+	verifrt.Assert(errSub == nil, "granted-subscribe-is-carried-out")
+	verifrt.Assert(errPubOK == nil, "granted-publish-is-carried-out")
+	code, fatal, _ := verifErr(errPubAbc)
+	verifrt.Assert(errPubAbc != nil && fatal && code == "E_UNAUTHORIZED", "publish-to-a-topic-without-grant-is-refused-whatever-was-allowed-before")
+	_, terr := n.GetExistingTopic("abc")
+	verifrt.Assert(terr != nil, "refused-publish-creates-no-topic")
+	verifrt.Reach("refused-after-an-allowed-subscribe", subFirst && errPubAbc != nil)
+}
